@@ -195,6 +195,21 @@ def stage2(shapes, s1_meta, s1_model, seed, tier='quick'):
             for j, sc in enumerate(rscripts):
                 add('%s.R%d_%d' % (lid, mml, j), 'recv', sid, '%d %s %s %d' % (mml, hexs(stream), sc, nrecv), mml=mml,
                     faults=False, **base)
+            # ---- a receiver over a buffer of any capacity that holds the largest message (IoBuffer::new(pipe, c, ALIGN)):
+            #      below 2 * maxlen the occupied part can overlap its destination when it is moved to the front
+            if mml == maxlen and len(msgs) > 1:
+                caps = sorted(set([maxlen, maxlen + 1, maxlen + maxlen // 2, 2 * maxlen - 1, maxlen + min(sizes)]))
+                for j, c in enumerate(caps if tier != 'quick' else rng.sample(caps, min(3, len(caps)))):
+                    sc = ','.join('d%d' % x for x in compositions(rng, total, rng.randint(1, total + 2))) or '-'
+                    add('%s.RC%d_%d' % (lid, c, j), 'recv', sid, 'c%d %s %s %d' % (c, hexs(stream), rng.choice([sc, '-', sc]), nrecv),
+                        mml=mml, cap=c, faults=False, **base)
+                    rs = []
+                    for x in compositions(rng, total, rng.randint(1, total + 2)):
+                        while rng.random() < 0.3:
+                            rs.append('p')
+                        rs.append('d%d' % x)
+                    add('%s.ARC%d_%d' % (lid, c, j), 'arecv', sid, 'c%d %s %s %d' % (c, hexs(stream), ','.join(rs) or '-', nrecv),
+                        mml=mml, cap=c, faults=False, **base)
             # ---- C08: the same with Pending sprinkled in, and the composed system
             for j in range(2 if tier == 'quick' else 5):
                 ws = []
